@@ -21,6 +21,7 @@ mod conc_ops;
 mod many_methods;
 mod librt;
 mod evo_ops;
+mod generic_ops;
 
 fn main() {
     std::panic::set_hook(Box::new(|_| {}));
@@ -57,6 +58,9 @@ pub fn dispatch(op: &str, toks: &[&str]) -> String {
         return r;
     }
     if let Some(r) = evo_ops::dispatch(op, toks) {
+        return r;
+    }
+    if let Some(r) = generic_ops::dispatch(op, toks) {
         return r;
     }
     if let Some(r) = schema_ops::dispatch(op, toks) {
